@@ -58,3 +58,51 @@ Theorem C17_source_tie_setters : forall fexp g cf,
   (forall t, GConfig.set_tolerance_prop fexp g cf t = Config.set_tolerance_prop fexp g cf t) /\
   GConfig.get_tolerance cf = Config.get_tolerance cf.
 Proof. intros fexp g cf. split; [|split]; [exact (tie_set_criterion_prop fexp g cf) | exact (tie_set_tolerance_prop fexp g cf) | exact (tie_get_tolerance cf)]. Qed.
+
+(* ---- whole sequences of configuration calls (Proofs/ConfigSeq.v) ----
+   a call = set_merge with any subset of arguments (the property setters are the special cases
+   C17_source_tie_setters names); a refused call leaves the configuration untouched *)
+From BB Require Import Proofs.ConfigSeq.
+Theorem C17_seq_frame : forall fexp ops cf,
+  (Forall (fun o => o_thr o = None) ops -> c_thr (run_cfg fexp cf ops) = c_thr cf) /\
+  (Forall (fun o => o_bf o = None) ops -> c_bf (run_cfg fexp cf ops) = c_bf cf) /\
+  (Forall (fun o => o_a o = ANone /\ o_tol o = None) ops -> c_crit (run_cfg fexp cf ops) = c_crit cf).
+Proof. intros fexp ops cf. split; [|split]; [apply run_thr_frame | apply run_bf_frame | apply run_crit_frame]. Qed.
+Theorem C17_seq_last_threshold_wins : forall fexp pre o post cf t,
+  o_thr o = Some t ->
+  Config.set_merge fexp None (run_cfg fexp cf pre) (o_a o) (o_tol o) (o_thr o) (o_bf o) <> None ->
+  Forall (fun o => o_thr o = None) post ->
+  c_thr (run_cfg fexp cf (pre ++ o :: post)) = t.
+Proof. exact run_thr_last. Qed.
+Theorem C17_seq_last_branching_factor_wins : forall fexp pre o post cf b,
+  o_bf o = Some b ->
+  Config.set_merge fexp None (run_cfg fexp cf pre) (o_a o) (o_tol o) (o_thr o) (o_bf o) <> None ->
+  Forall (fun o => o_bf o = None) post ->
+  c_bf (run_cfg fexp cf (pre ++ o :: post)) = b.
+Proof. exact run_bf_last. Qed.
+Theorem C17_seq_tolerance_survives : forall fexp ops cf t0,
+  crit_tolerance (c_crit cf) = Some t0 -> Forall keeps_tol_op ops ->
+  crit_tolerance (c_crit (run_cfg fexp cf ops)) = Some t0.
+Proof. exact run_keeps_tol. Qed.
+Theorem C17_tolerance_only_call : forall fexp cf o t,
+  o_a o = ANone -> o_tol o = Some t ->
+  (crit_tolerance (c_crit cf) <> None ->
+     crit_tolerance (c_crit (apply_op fexp cf o)) = Some t /\
+     crit_name (c_crit (apply_op fexp cf o)) = crit_name (c_crit cf)) /\
+  (crit_tolerance (c_crit cf) = None -> apply_op fexp cf o = cf).
+Proof. exact apply_tol_only. Qed.
+Theorem C17_call_idempotent : forall fexp cf o, apply_op fexp (apply_op fexp cf o) o = apply_op fexp cf o.
+Proof. exact apply_idem. Qed.
+Example C17_seq_nonvacuous :
+  let f := fun _ : float => 0.5%float in
+  let cf := mkCfg (CTolDiameter 0.2 tol_decay (tol_offset f)) 0.65 50 in
+  let ops := [mkOp (AName NTolRadius) None None (Some 20); mkOp ANone None (Some 0.5%float) None;
+              mkOp (AName NNever) None None None] in
+  Forall keeps_tol_op ops /\
+  run_cfg f cf ops = mkCfg (CNever 0.2 tol_decay (tol_offset f)) 0.5 20.
+Proof.
+  split; [|reflexivity].
+  constructor; [split; [reflexivity|right; exists NTolRadius; split; reflexivity]|].
+  constructor; [split; [reflexivity|left; reflexivity]|].
+  constructor; [split; [reflexivity|right; exists NNever; split; reflexivity]|constructor].
+Qed.
